@@ -11,9 +11,13 @@ pub struct FVar {
     pub name: String,
     pub is_bool: bool,
     pub dom: Vec<i32>,
-    /// 0: range `lb..ub`, 1: set `{a,b,c}`, 2: bool, 3: fixed via `= value` initialiser
+    /// 0: range `lb..ub`, 1: set `{a,b,c}`, 2: bool, 3: fixed via `= value` initialiser,
+    /// 4: fixed via `= <parameter>` (a parameter declared before it)
     pub decl: u8,
     pub output: bool,
+    /// `var <domain>: name = <earlier variable>;`: the same variable under another name, within
+    /// this declaration's own domain
+    pub alias: Option<usize>,
 }
 
 #[derive(Clone, Copy, Debug, PartialEq)]
@@ -49,6 +53,21 @@ pub struct FznModel {
     pub obj: usize,
     /// optional search annotation: (variables, variable selection, value selection)
     pub search: Option<(Vec<usize>, String, String)>,
+}
+
+/// Whether every class of variables connected by aliases has a common value (an alias class
+/// whose declared domains are disjoint is a degenerate input no MiniZinc compilation produces).
+pub fn aliases_consistent(vars: &[FVar]) -> bool {
+    let mut root: Vec<usize> = (0..vars.len()).collect();
+    for i in 0..vars.len() {
+        if let Some(t) = vars[i].alias {
+            root[i] = root[t];
+        }
+    }
+    (0..vars.len()).all(|r| {
+        let members: Vec<usize> = (0..vars.len()).filter(|i| root[*i] == r).collect();
+        members.is_empty() || vars[members[0]].dom.iter().any(|x| members.iter().all(|m| vars[*m].dom.contains(x)))
+    })
 }
 
 fn tdiv(a: i64, b: i64) -> i64 {
@@ -159,6 +178,7 @@ impl FznModel {
             }
             out = next;
         }
+        out.retain(|a| self.vars.iter().enumerate().all(|(i, v)| v.alias.is_none_or(|t| a[i] == a[t])));
         out.retain(|a| self.cons.iter().all(|c| self.holds(c, a)));
         out
     }
@@ -184,12 +204,27 @@ impl FznModel {
         let carr = |xs: &[i32]| format!("[{}]", xs.iter().map(|x| x.to_string()).collect::<Vec<_>>().join(", "));
         let mut lines: Vec<String> = vec![];
         for v in &self.vars {
+            if v.decl == 4 {
+                if v.is_bool {
+                    lines.push(format!("bool: p_{} = {};", v.name, if v.dom[0] == 1 { "true" } else { "false" }));
+                } else {
+                    lines.push(format!("int: p_{} = {};", v.name, v.dom[0]));
+                }
+            }
+        }
+        for v in &self.vars {
             let ann = if v.output { " :: output_var" } else { "" };
+            let init = match v.alias {
+                Some(t) => format!(" = {}", self.vars[t].name),
+                None => String::new(),
+            };
             let line = match v.decl {
-                2 => format!("var bool: {}{ann};", v.name),
-                1 => format!("var {{{}}}: {}{ann};", v.dom.iter().map(|x| x.to_string()).collect::<Vec<_>>().join(","), v.name),
+                2 => format!("var bool: {}{ann}{init};", v.name),
+                1 => format!("var {{{}}}: {}{ann}{init};", v.dom.iter().map(|x| x.to_string()).collect::<Vec<_>>().join(","), v.name),
                 3 => format!("var {}..{}: {}{ann} = {};", v.dom[0], v.dom[0], v.name, v.dom[0]),
-                _ => format!("var {}..{}: {}{ann};", v.dom[0], v.dom[v.dom.len() - 1], v.name),
+                4 if v.is_bool => format!("var bool: {}{ann} = p_{};", v.name, v.name),
+                4 => format!("var {}..{}: {}{ann} = p_{};", v.dom[0], v.dom[0], v.name, v.name),
+                _ => format!("var {}..{}: {}{ann}{init};", v.dom[0], v.dom[v.dom.len() - 1], v.name),
             };
             lines.push(line);
         }
@@ -357,10 +392,39 @@ impl FznModel {
                 16 | 17 => (vec![rng.range32(-2, 3)], 0),
                 _ => (vec![rng.range32(-2, 3)], 3),
             };
-            vars.push(FVar { name: format!("x{i}"), is_bool: false, dom, decl, output: true });
+            vars.push(FVar { name: format!("x{i}"), is_bool: false, dom, decl, output: true, alias: None });
         }
         for i in 0..nb {
-            vars.push(FVar { name: format!("b{i}"), is_bool: true, dom: vec![0, 1], decl: 2, output: true });
+            vars.push(FVar { name: format!("b{i}"), is_bool: true, dom: vec![0, 1], decl: 2, output: true, alias: None });
+        }
+        // aliases (`var 2..5: w = z;`) and variables fixed through a parameter, in a third of the
+        // models. Aliases that involve a set-domain declaration are an open finding (KF-007) and
+        // only generated in a small slice.
+        let set_aliases = rng.chance(0.04);
+        if rng.chance(0.35) {
+            for i in 0..vars.len() {
+                match rng.below(8) {
+                    0 | 1 => {
+                        // the two declared domains share a value (an alias whose domains are
+                        // disjoint is a degenerate input no MiniZinc compilation produces)
+                        let earlier: Vec<usize> =
+                            (0..i).filter(|j| vars[*j].is_bool == vars[i].is_bool && vars[*j].decl != 4 && (set_aliases || (vars[*j].decl != 1 && vars[i].decl != 1))).collect();
+                        if !earlier.is_empty() && vars[i].decl != 3 {
+                            let t = *rng.pick(&earlier);
+                            vars[i].alias = Some(t);
+                            if !aliases_consistent(&vars) {
+                                vars[i].alias = None;
+                            }
+                        }
+                    }
+                    2 => {
+                        let v = *rng.pick(&vars[i].dom);
+                        vars[i].dom = vec![v];
+                        vars[i].decl = 4;
+                    }
+                    _ => {}
+                }
+            }
         }
         let ints: Vec<usize> = (0..nv).collect();
         let bools: Vec<usize> = (nv..nv + nb).collect();
@@ -512,9 +576,25 @@ impl FznModel {
             m.mode = 0;
             out.push(m);
         }
+        for i in 0..self.vars.len() {
+            if self.vars[i].alias.is_some() {
+                let mut m = self.clone();
+                m.vars[i].alias = None;
+                out.push(m);
+            }
+            if self.vars[i].decl == 4 {
+                let mut m = self.clone();
+                m.vars[i].decl = if m.vars[i].is_bool { 2 } else { 3 };
+                if m.vars[i].is_bool {
+                    m.vars[i].dom = vec![0, 1];
+                }
+                out.push(m);
+            }
+        }
         // drop unused trailing variables
         let used = |m: &FznModel, v: usize| {
             m.obj == v
+                || m.vars.iter().any(|x| x.alias == Some(v))
                 || m.search.as_ref().is_some_and(|(vs, _, _)| vs.contains(&v))
                 || m.cons.iter().any(|c| c.xs.iter().chain(&c.ys).chain(&c.a).any(|t| *t == Arg::Var(v)))
         };
@@ -551,6 +631,8 @@ impl FznModel {
                 out.push(m);
             }
         }
+        // stay inside the generator's input space: the variables of one alias class share a value
+        out.retain(|m| aliases_consistent(&m.vars));
         out
     }
 
@@ -566,7 +648,7 @@ impl FznModel {
                 J::Arr(
                     self.vars
                         .iter()
-                        .map(|v| J::obj(vec![("name", J::s(&v.name)), ("bool", J::Bool(v.is_bool)), ("dom", J::ints(&v.dom)), ("decl", J::i(v.decl)), ("output", J::Bool(v.output))]))
+                        .map(|v| J::obj(vec![("name", J::s(&v.name)), ("bool", J::Bool(v.is_bool)), ("dom", J::ints(&v.dom)), ("decl", J::i(v.decl)), ("output", J::Bool(v.output)), ("alias", match v.alias { Some(t) => J::u(t as u64), None => J::Null })]))
                         .collect(),
                 ),
             ),
@@ -619,7 +701,7 @@ impl FznModel {
                 .at("vars")
                 .as_arr()
                 .iter()
-                .map(|v| FVar { name: v.at("name").as_str().to_string(), is_bool: v.at("bool").as_bool(), dom: v.at("dom").as_ints(), decl: v.at("decl").as_i64() as u8, output: v.at("output").as_bool() })
+                .map(|v| FVar { name: v.at("name").as_str().to_string(), is_bool: v.at("bool").as_bool(), dom: v.at("dom").as_ints(), decl: v.at("decl").as_i64() as u8, output: v.at("output").as_bool(), alias: v.get("alias").and_then(|a| if matches!(a, J::Null) { None } else { Some(a.as_usize()) }) })
                 .collect(),
             cons: j
                 .at("cons")
